@@ -29,7 +29,8 @@ CHECKS = {
          'late or simultaneous end-of-stream) of streams of 1-4 encodings (the output of the library encoder and equivalent BER variant '
          'forms) on three stream doubles, plus exhaustive parts: every single split point of sampled streams, every one of the '
          '2^(n-1) partitions of short streams, and for very short streams every assignment of one of six behaviours (join, split, '
-         'split + empty poll, would-block read, short read, short read + empty poll) to every byte boundary; invariants I1-I6 '
+         'split + empty poll, would-block read, short read, short read + empty poll) to every byte boundary; idle periods of up to 2500 '
+         'empty polls; a plain BytesIO used as a message queue with the same decoder iterated again after every append; invariants I1-I6 '
          'checked at every poll against the same decoder on the trivial '
          'schedule. Sampling, not proof: a clean batch is evidence that no schedule in the sampled space changes the output.',
     note='Trusts: the trivial-schedule behaviour of the same decoder as reference (differential oracle); the stream doubles '
@@ -40,7 +41,7 @@ CHECKS = {
     engine='stream-world', category='fault_enumeration', design_ref='DESIGN.md section 3 (C06)',
     text='For each sampled valid encoding, the producer-crash fault (stream ends after byte k) is enumerated at EVERY cut point k, '
          'in four presentations (bytes, closed seekable stream, closed non-seekable stream, streaming open-then-closed under a seeded '
-         'arrival schedule); the oracle is absolute: SubstrateUnderrunError (one-shot), underrun while open, EndOfStreamError after close.',
+         'arrival schedule with read faults while the prefix arrives and around the close), plus prefixes of virtual elements of 16 MiB .. 1 TiB; the oracle is absolute: SubstrateUnderrunError (one-shot), underrun while open, EndOfStreamError after close.',
     note='Trusts: validity precondition (well-framed per the independent scanner and accepted by one-shot decode with empty remainder); '
          'the error hierarchy in pyasn1.error. Cut positions are exhaustive per item; items are sampled.',
     technique='deterministic simulation: exhaustive enumeration of the crash point within each seeded workload item, seeded arrival schedules for the surviving prefix'),
@@ -48,7 +49,8 @@ CHECKS = {
     engine='stream-world', category='exploration', design_ref='DESIGN.md section 3 (C07)',
     text='Seeded search: one-shot decode(e||t) for five kinds of tail (empty, end-of-octets, zeros, another encoding, garbage) with a '
          'byte-exact remainder oracle, and streams of 1-4 encodings under seeded schedules with the stream position asserted after '
-         'every yielded object against boundaries known from construction (tell() on seekable doubles, hand-off read on the non-seekable one).',
+         'every yielded object against boundaries known from construction (tell() on seekable doubles, hand-off read on the non-seekable one); '
+         'plain elements of 8-16 MiB and scale shapes (wide records, long collections, many alternatives) must decode at all.',
     note='Trusts: the library encoder, plus value-preserving framing edits of its output, as the source of valid encodings; one-shot decode(e) as '
          'the reference value. Open known findings F2 (stray end-of-octets after a definite explicit tag, test-pinned) and F6 are classified narrowly.',
     technique='deterministic simulation: seeded schedule/fault injection on the stream seam with position accounting from construction; byte-exact remainder oracle'),
@@ -56,11 +58,13 @@ CHECKS = {
     engine='stream-world', category='exploration', design_ref='DESIGN.md section 3 (C08)',
     text='Seeded stored-byte corruption (bit flip, structural octet, insert, delete, TLV duplication, length and identifier rewrite, '
          'truncation; 1-3 faults) and grammar-aware damage (edits of the TLV tree with enclosing lengths recomputed: empty/replace/retag/duplicate/'
-         'drop/swap a node, change the length form, fragment a primitive, add a zero-length child, wrap) of valid encodings, and seeded '
+         'drop/swap a node, change the length form, fragment a primitive, add a zero-length child, wrap, bloat a primitive to thousands of octets, '
+         'give it a tag number of thousands of bits) of valid encodings, and seeded '
          'structural-octet strings, through {BER,CER,DER} x {one-shot, streaming under a '
          'seeded arrival schedule with drain} x {own, neighbouring, no guiding type}; plus exhaustive sweeps: all strings of length <= 3 '
          'over 14 structural octets, all contents of length <= 3 over 24 content octets for 15 universal types, all lists of at most two '
-         'fragments (47 shapes) for three constructed string types in both length forms. Oracle: value object + bytes remainder, or a PyAsn1Error; deterministic termination bound on stream reads '
+         'fragments (47 shapes) for three constructed string types in both length forms, REAL texts of length <= 3/4 over 17 characters plus '
+         'long digit strings, very long INTEGER contents. Oracle: value object + bytes remainder, or a PyAsn1Error; deterministic termination bound on stream reads '
          'and on control-flow events (sys.monitoring), so a hang is a replayable verdict.',
     note='Trusts: the depth bound is applied with an upper-bound estimate from the framing scanner; the step budget constants (x20 head-room '
          'over measured valid inputs). Exhaustive only for |b| <= 3 over the reduced alphabet; otherwise sampled.',
@@ -70,7 +74,8 @@ CHECKS = {
     text='Part A: the same bytes (valid streams, corrupted ones, wide/deep/over-threshold containers from an independent TLV writer) through 10 '
          'substrate kinds (BytesIO, OctetString, Any, OS file, gzip, zip member, BufferedReader over a raw pipe, non-seekable double raw and '
          'pre-wrapped, seekable double) with the wrapper drop threshold (4/16/64/8192 and the shipped value with >8 KiB '
-         'elements) and the buffer size of files and buffered readers (16/17/64/4096/default) as per-run knobs; outcome must equal the outcome on bytes. Part B: seeded operation histories (read/peek/seek-back/set-mark/tell with short '
+         'elements) and the buffer size of files and buffered readers (16/17/64/4096/default) as per-run knobs, plus one decoder per message '
+         'on the same input object (which must stay usable); outcome must equal the outcome on bytes. Part B: seeded operation histories (read/peek/seek-back/set-mark/tell with short '
          'and would-block raw reads) on the real CachingStreamWrapper against a reference model, checked after every operation.',
     note='Trusts: outcome on bytes as the reference; wrapper positions are compared modulo the renumbering at mark points pinned by upstream '
          'testMarkedPositionResets (that renumbering is what breaks the decoder on non-seekable streams: open known finding F6, classified narrowly). '
@@ -80,7 +85,10 @@ CHECKS = {
     engine='task-world', category='exploration', design_ref='DESIGN.md section 3 (C12)',
     text='2-5 codec tasks (encode, decode, streaming decode with its own arrival sub-plan, print, native codec; now and then 1-3 streaming '
          'decodes of a 20-95 levels deep element parked mid-way) over SHARED schema/value objects, over 0-2 colliding neighbour types (same tag '
-         'numbers under the other tagging mode / class / base type) and the module-level codec singletons, under seeded schedules: back-to-back histories with repeats, step-by-step interleaving of '
+         'numbers under the other tagging mode / class / base type; the parent classes of character types with an encoding override), with '
+         'decode tasks on input that is not a value of the type, a caller-supplied openTypes mapping as shared configuration, consumer '
+         'crashes (a suspended decoder abandoned and restarted) and the module-level codec singletons, under seeded schedules '
+         '(for sampled task pairs every single pre-emption point): back-to-back histories with repeats, step-by-step interleaving of '
          'suspended decoder generators, real threads pre-empted at pyasn1 line events by a baton-passing scheduler (one runnable thread, the '
          'plan decides every switch), each optionally with debug logging on. Oracles: every task outcome equals the same task alone on fresh '
          'objects after an injected process restart (every enumerated process-global container of pyasn1 - module level, codec singletons, '
@@ -92,7 +100,9 @@ CHECKS = {
  'C19': dict(
     engine='history-world', category='exploration', design_ref='DESIGN.md section 3 (C19) and appendix B',
     text='Seeded operation histories (5-30 operations: mutators, readers, ill-formed operations as injected faults, in-place mutation of nested '
-         'members, sort under total, coarse and constant keys, clone with both objects kept under check) over SEQUENCE OF/SET OF (with and without component type), SEQUENCE/SET with declared '
+         'members incl. half-filled nested records, sort under total, coarse and constant keys, slices with negative and omitted bounds, '
+         'elements given as objects of narrower subtypes, tag-addressed reads through nested CHOICEs, SIZE-constrained collections that may '
+         'start from a decoded object, collections of up to 1030 members, clone with both objects kept under check) over SEQUENCE OF/SET OF (with and without component type), SEQUENCE/SET with declared '
          'fields, CHOICE and valueless scalars; after every step the object is compared with a Python list/dict reference model (content, length, '
          'value-versus-schema status, DER against a freshly built object), readers must leave every observable unchanged, ill-formed operations '
          'must raise a lookup/library error and change nothing, a CHOICE never holds two alternatives.',
@@ -104,7 +114,9 @@ CHECKS = {
  'C04': dict(
     engine='replica-world', category='exploration', design_ref='DESIGN.md section 3 (C04)',
     text='2-5 replicas are driven to the same abstract value by different seeded construction histories (permuted assignment/insertion order and '
-         'addressing mode, DEFAULT components explicit or left out, native Python arguments, lazy in-place construction through instantiating reads, '
+         'addressing mode, DEFAULT components explicit (also through setDefaultComponents) or left out, native Python arguments, lazy in-place '
+         'construction through instantiating reads, every scalar slot overwritten (decoy first), scalars as objects of narrower subtypes, equal '
+         'sub-values as one shared object, '
          'decoding of each BER form the library can produce incl. REAL bases 2/8/16, decoding of equivalent BER variants - long-form and '
          'indefinite lengths, constructed strings, other TRUE octets -, CER/DER decode, clone of another route) with read-only uses (DER/CER/BER '
          'encode, print, iterate, compare, len, in, subscript reads) interleaved after and, for the in-place route, between construction steps; the DER '
@@ -119,7 +131,7 @@ CHECKS = {
     text='Same fault model as C08 (1-3 stored-byte corruptions of valid encodings, encodings of values of a neighbouring type with constraints '
          'dropped or with exactly one constrained leaf pushed outside - optionally echoed into the unconstrained leaves of that kind -, grammar-aware '
          'tree damage, seeded arrival schedules), restricted to schema-guided decoding over a universe extended with value ranges, sizes (also on '
-         'SEQUENCE OF/SET OF) and permitted alphabets. Whenever a decoder RETURNS a value: it must conform to an independent evaluation of the '
+         'SEQUENCE OF/SET OF, also through the sizeSpec keyword), permitted alphabets, exclusions, unions, open-ended bounds and twice-refined types. Whenever a decoder RETURNS a value: it must conform to an independent evaluation of the '
          'descriptor (kinds, tag stacks, mandatory components, every scalar and size predicate, one CHOICE alternative), the encoder of the same '
          'family must accept it, and decoding that re-encoding must give the same abstract value.',
     note='Trusts: the well-typedness evaluator works from the descriptor\'s plain data, never from pyasn1 constraint objects; open types are '
